@@ -35,11 +35,15 @@ def opsKmer : List String → Option String
     | .ok r =>
       let r := sortUniq (fun (a b : Bytes × Kmer.Pos) => bytesLt a.1 b.1 || (a.1 == b.1 && posLt a.2 b.2)) r
       pure (if r.isEmpty then "[]" else " ".intercalate (r.map fun (k, p) => s!"{hex k}:{p.1}:{showStop p.2}"))
-  -- poskmers <hex adapter> <minOverlap> <rateBits> <back> <front> <internal>
-  | ["poskmers", s, mo, rb, b, f, i] => do
+  -- poskmers <hex adapter> <minOverlap> <rateBits> <back> <front> <internal> [indels]
+  | "poskmers" :: s :: mo :: rb :: b :: f :: i :: rest => do
     let s ← unhex s; let mo ← mo.toNat?; let rate ← floatOfBits rb
     let b ← parseBool b; let f ← parseBool f; let i ← parseBool i
-    match createPositionsAndKmers s mo (thrOfRate rate) b f i with
+    let ind ← match rest with
+      | [] => some false
+      | [x] => parseBool x
+      | _ => none
+    match createPositionsAndKmers s mo (thrOfRate rate) b f i ind with
     | .error _ => pure "error:not-implemented"
     | .ok es => pure (showEntries es)
   -- kmerspresent <type> <hex seq> <rateBits> <minOverlap> <readWild> <adapterWild> <indels> <hex read> <hex beyond> [forceAnywhere]
@@ -54,6 +58,17 @@ def opsKmer : List String → Option String
     match mkAdapter ty sq me mo rw aw ind fa with
     | .error e => pure (showMkErr e)
     | .ok (a, _) => pure (if kmersPresent (finderFor a) rd bd then "True" else "False")
+  -- safedomain <type> <hex seq> <rateBits> <minOverlap> <readWild> <adapterWild> <indels> <hex read> [forceAnywhere]
+  | "safedomain" :: ty :: sq :: rb :: mo :: rw :: aw :: ind :: rd :: rest => do
+    let ty ← parseType ty; let sq ← unhex sq; let me ← floatOfBits rb; let mo ← mo.toNat?
+    let rw ← parseBool rw; let aw ← parseBool aw; let ind ← parseBool ind; let rd ← unhex rd
+    let fa ← match rest with
+      | [] => some false
+      | [x] => parseBool x
+      | _ => none
+    match mkAdapter ty sq me mo rw aw ind fa with
+    | .error e => pure (showMkErr e)
+    | .ok (a, _) => pure (if safeDomain a rd then "True" else "False")
   -- finderkind <type> <hex seq> <rateBits> <minOverlap> <readWild> <adapterWild> <indels> [forceAnywhere] : mock | masks
   | "finderkind" :: ty :: sq :: rb :: mo :: rw :: aw :: ind :: rest => do
     let ty ← parseType ty; let sq ← unhex sq; let me ← floatOfBits rb; let mo ← mo.toNat?
